@@ -8,7 +8,7 @@ env = dict(os.environ); env.pop("OPACUS_VERIF", None)
 with tempfile.TemporaryDirectory() as d:
     xml = os.path.join(d, "r.xml")
     cmd = ["/venv/bin/python", "-m", "pytest", "-ra", "-q", "-p", "no:cacheprovider", "--timeout=900",
-           "--continue-on-collection-errors", f"--junitxml={xml}"] + sys.argv[2:]
+           "--continue-on-collection-errors", f"--junitxml={xml}"] + (["-n", os.environ["BASELINE_N"]] if os.environ.get("BASELINE_N") else []) + sys.argv[2:]
     p = subprocess.run(cmd, cwd=repo, env=env, capture_output=True, text=True)
     passed = set()
     for tc in ET.parse(xml).getroot().iter("testcase"):
